@@ -155,3 +155,20 @@ func (f *far) parseFAR(farIE *ie.IE, fseid uint64, upf *upf, op operation) error
 
 	return nil
 }
+
+// hasDestinationInterface tells whether the Update Forwarding Parameters of an Update FAR carry
+// the Destination Interface.
+func hasDestinationInterface(updateFAR *ie.IE) bool {
+	fwdIEs, err := updateFAR.UpdateForwardingParameters()
+	if err != nil {
+		return false
+	}
+
+	for _, fwdIE := range fwdIEs {
+		if fwdIE.Type == ie.DestinationInterface {
+			return true
+		}
+	}
+
+	return false
+}
